@@ -17,7 +17,7 @@ import (
 // returns a value of the advertised type; index-taking operations obey the
 // negative-index / out-of-range law.
 
-var verifMemberKinds = []string{"int", "float", "bool", "str", "range", "list", "anyobj", "object", "object-with-fields-named-like-builtin-members", "list-of-ranges", "list-of-options", "anyobj-with-a-range", "float-concrete", "list-of-floats", "str-unicode", "option"}
+var verifMemberKinds = []string{"int", "float", "bool", "str", "range", "list", "anyobj", "object", "object-with-fields-named-like-builtin-members", "list-of-ranges", "list-of-options", "anyobj-with-a-range", "anyobj-with-a-function", "float-concrete", "list-of-floats", "str-unicode", "option"}
 
 type verifSubject struct {
 	typ ast.Type
@@ -63,6 +63,11 @@ func verifSubjectOf(kind string) verifSubject {
 		return verifSubject{ast.NewObjectType([]ast.ObjectTypeField{ast.NewObjectTypeField(pAst.NewSpannedIdent("a", sp), ast.NewIntType(sp), sp)}, sp),
 			*vvalue.NewValueObject(map[string]*vvalue.Value{"a": vvalue.NewValueInt(i)}),
 			*ivalue.NewValueObject(map[string]*ivalue.Value{"a": ivalue.NewValueInt(i)})}
+	case "anyobj-with-a-function":
+		// a user-defined function stored in an any-object (`a.set("a", helper)`): a VM function value / a function value
+		return verifSubject{ast.NewAnyObjectType(sp),
+			*vvalue.NewValueAnyObject(map[string]*vvalue.Value{"a": vvalue.NewValueVMFunction("@main.helper"), "b": vvalue.NewValueInt(i)}),
+			*ivalue.NewValueAnyObject(map[string]*ivalue.Value{"a": ivalue.NewValueFunction("main", ast.AnalyzedBlock{}, nil), "b": ivalue.NewValueInt(i)})}
 	case "float-concrete":
 		// the text of a float is not interpreted by the solver: concrete values for the members that render it
 		f := []float64{2.0, 2.5, -0.0, 1e21, 0.000001, 123456789.0}[herrors.VerifNdIntRange("subj_fc", 0, 5)]
